@@ -12,7 +12,7 @@ import signal as _signal
 import sys
 
 from sim import setup, plan as planmod
-from sim.world import HarnessError, StepCap, Quiescent, SimAbort
+from sim.world import environment_artefact, HarnessError, StepCap, Quiescent, SimAbort
 
 PROP = "C08"
 LEVEL = "exploration"
@@ -110,7 +110,7 @@ def gen_plan(seed, tier, index=0, avoid=()):
         "sigint_event": rng.random() < 0.5,
         "sigint_handler": rng.choice(("default", "app")),
         "dts": rng.random() < 0.3,
-        "pipe_cap": rng.choice((65536, 65536, 64, 19, 40)),
+        "pipe_cap": rng.choice((65536, 65536, 4096, 256, 64)),
         "tick": rng.choice((0.0, 1e-6, 1e-4)),
         "time_cost": rng.choice((0.0, 0.0, 1e-7, 1e-5, 1e-3)),
         "overshoot": rng.choice((0.0, 1e-6, 1e-3)),
@@ -382,6 +382,7 @@ class Model:
         self.sigints_sent = 0
         self.sigint_events = 0
         self.req_reads = []
+        self.req_spans = []              # (start, end) in `entered` of each tty read of the current request
         self.serial = 0
         self.event_serials = {}          # serial -> ("event"|"ts"|"sched", src)
         self.ts_completed_seq = {}       # serial -> log sequence number when its callback had returned
@@ -391,6 +392,10 @@ class Model:
         self.entered_bounds = {0}        # offsets in `entered` at which a typed key ends
         self.arrived_total = 0
         self.tty_read_total = 0
+
+    def entered_bounds_sorted(self, a, b):
+        """typed-key ends e with a < e <= b (offsets in `entered`)"""
+        return [e for e in self.entered_bounds if a < e <= b]
 
     def new_serial(self, kind, src):
         self.serial += 1
@@ -465,6 +470,7 @@ def _execute(p, s, res):
         M.entered.extend(data)
         if in_request:
             M.req_reads.append(len(data))
+            M.req_spans.append((base, base + len(data)))
         M.tty_read_total += len(data)
         if M.tty_read_total not in M.boundaries:
             world.probe("char_cut_by_read")
@@ -639,11 +645,12 @@ def _execute(p, s, res):
         deliv = deliverable_now()
         sched_pending = bool(M.sched)
         M.req_reads = []
+        M.req_spans = []
         pos0 = M.pos
         short0 = world.faults.get("short_read", 0)
         eio0 = world.faults.get("read_eio", 0)
         world.main_waited = False
-        stale = sum(1 for fd in ts_rfds if kernel.readable(fd))
+        stale = sum(1 for fd in ts_rfds if fd is not None and kernel.readable(fd))
         res["states"].add("%d%d|%s|%d%d|%d|%s|%d" % (
             bool(M.q_events), bool(M.ts_completed), "due" if "scheduled_due" in deliv else "pend" if M.sched else "-",
             M.pos < len(M.entered), len(s.tty.inq) > 0, min(stale, 2),
@@ -669,6 +676,8 @@ def _execute(p, s, res):
         except (HarnessError, SimAbort, StepCap, Quiescent):
             raise
         except OSError as e:
+            if environment_artefact(e):
+                raise HarnessError("stub-environment artefact: %s: %s" % (type(e).__name__, e))
             if world.faults.get("read_eio", 0) > eio0:
                 # an injected I/O error: the request fails, nothing is consumed, nothing may be lost
                 world.probe("request_failed_with_injected_eio")
@@ -678,6 +687,8 @@ def _execute(p, s, res):
                                                  "deliverable": deliv})
             return
         except Exception as e:
+            if environment_artefact(e):
+                raise HarnessError("stub-environment artefact: %s: %s" % (type(e).__name__, e))
             import traceback
             _violate(res, "request_raised", si, {"exception": "%s: %s" % (type(e).__name__, e), "timeout": timeout,
                                                  "deliverable": deliv,
@@ -707,12 +718,23 @@ def _execute(p, s, res):
             for k in r.events:
                 if not judge_key(k, si, True):
                     return
-            if thr is None or not any(n > thr for n in reads):
+            if thr is None or sum(reads) <= thr:
+                # (an implementation may add up what it reads in one go differently -- e.g. read until nothing is
+                # left and compare the total -- but without more than paste_threshold bytes there is no burst)
                 _violate(res, "paste_without_burst", si, {"reads": reads[:4], "paste_threshold": thr})
-            if M.pos != len(M.entered) and not cfg["split"] and not world.faults.get("short_read"):
-                # (a short read is arrival fragmentation by another name: once one has happened keys may be cut
-                # like in the split_arrival slice, and only the conservation law is demanded of pastes)
-                _violate(res, "paste_does_not_cover_burst", si, {"covered_to": M.pos, "entered": len(M.entered)})
+            if thr is not None and not cfg["split"] and not world.faults.get("short_read"):
+                # the burst "read in one go" is the first read of this request that exceeded the threshold: every
+                # typed key lying wholly inside it belongs in this paste (a key cut by the end of that read may be
+                # completed now or left for the next request; short reads / split arrivals: conservation only)
+                for (a, b_), n in zip(M.req_spans, reads):
+                    if n > thr:
+                        import bisect
+                        whole = [x for x in M.entered_bounds_sorted(a, b_)]
+                        need = max(whole) if whole else a
+                        if M.pos < need:
+                            _violate(res, "paste_does_not_cover_burst", si,
+                                     {"covered_to": M.pos, "burst": [a, b_], "last_whole_key_ends_at": need})
+                        break
         elif isinstance(r, (str, bytes)):
             if not judge_key(r, si, False):
                 return
@@ -813,11 +835,13 @@ def _execute(p, s, res):
         except (HarnessError, SimAbort, StepCap, Quiescent):
             raise
         except Exception as e:
-            _violate(res, "cursor_query_raised", si, {"exception": "%s: %s" % (type(e).__name__, e)})
+            if environment_artefact(e):
+                raise HarnessError("stub-environment artefact: %s: %s" % (type(e).__name__, e))
+            # (what the query returns or raises is C18's subject; here it only generates unget_bytes traffic)
+            world.log.add("cursor_query_raised", si, type(e).__name__)
             return
         world.probe("cursor_query_with_typeahead" if ahead else "cursor_query")
-        if pos != (s.term.r, s.term.c):
-            _violate(res, "cursor_query_wrong_position", si, {"returned": list(pos), "cursor": [s.term.r, s.term.c]})
+        world.log.add("cursor_query_returned", si, list(pos) if isinstance(pos, tuple) else None)
 
     # spurious wake-up accounting: a trigger pipe read that finds no event
     orig_read = kernel.read
@@ -846,8 +870,8 @@ def _execute(p, s, res):
         def make_ts():
             fds0 = set(kernel.open_fds())
             cb = inp.threadsafe_event_trigger(Ev)
-            new = sorted(set(kernel.open_fds()) - fds0)
-            ts_rfds.extend(fd for fd in new if kernel.fds[fd].kind == "pr")
+            new = [fd for fd in sorted(set(kernel.open_fds()) - fds0) if kernel.fds[fd].kind == "pr"]
+            ts_rfds.append(new[0] if new else None)     # (None: this implementation did not open a pipe of its own)
             ts_cbs.append(cb)
         for k in range(cfg.get("nts_initial", cfg["nts"])):
             make_ts()
@@ -906,8 +930,9 @@ def _execute(p, s, res):
                 elif op == "ts_call" and st["trig"] >= len(ts_cbs):
                     world.log.add("ts_call_skipped_not_created", st["trig"])
                 elif op == "ts_call":
-                    pipe = kernel.fds[ts_rfds[st["trig"]]].pipe
-                    if pipe.cap >= 65536 and pipe.cap - len(pipe.buf) >= 19 * 8:
+                    rfd = ts_rfds[st["trig"]]
+                    pipe = kernel.fds[rfd].pipe if rfd in kernel.fds else None
+                    if pipe is None or (pipe.cap >= 65536 and pipe.cap - len(pipe.buf) >= 1024):
                         call_ts(st["trig"], "main")
                     else:
                         # the app thread is the only reader: a blocking write to its own full pipe would be
@@ -940,10 +965,10 @@ def _execute(p, s, res):
                     break
                 rounds += 1
                 if rounds > 4000 + 4 * M.arrived_total:
-                    _violate(res, "drain_did_not_finish", -1, {"queued": len(M.q_events), "threadsafe": len(M.ts_completed),
-                                                               "scheduled": len(M.sched), "tty": len(s.tty.inq),
-                                                               "buffered": len(M.entered) - M.pos})
-                    break
+                    # every single request of the drain was judged; running out of rounds is a budget matter
+                    raise HarnessError("drain did not finish within its budget (queued %d, threadsafe %d, scheduled %d, "
+                                       "tty %d, buffered %d)" % (len(M.q_events), len(M.ts_completed), len(M.sched),
+                                                                 len(s.tty.inq), len(M.entered) - M.pos))
                 req_spur[0] = 0
                 if cfg["split"] and M.pos < len(M.entered) and not len(s.tty.inq) and not world.env and not alive \
                         and not (M.q_events or M.ts_completed or M.sched):
@@ -975,8 +1000,8 @@ def _execute(p, s, res):
                       "blocked_in": world.main.blocked_in})
             aborted = True
         except StepCap:
-            _violate(res, "step_cap_exceeded", -1, {"yields": world.yields})
-            aborted = True
+            # the step budget is a property of the harness: hitting it is not a verdict on the library
+            raise HarnessError("step cap exceeded after %d yield points" % world.yields)
         # ---- end of history ----------------------------------------------------------------
         if not res["violation"] and not aborted:
             for t in world.threads[1:]:
